@@ -34,10 +34,35 @@ fn visible(g: &GraphSpec, t: usize, out: &mut BTreeSet<usize>) {
     }
 }
 
+/// Is the last component of `url` a plain name (`f3`), so that the default
+/// namespace is unambiguous whatever the implementation does with extensions and underscores?
+fn plain_last_component(url: &str) -> bool {
+    let last = url.rsplit('/').next().unwrap_or("");
+    last.len() > 1 && last.starts_with('f') && last[1..].chars().all(|c| c.is_ascii_digit())
+}
+
 fn add_probes(g: &mut GraphSpec, assign_via_forward: bool, rng: &mut Rng) {
     let mut value = 100u32;
     let mut tag = 0u32;
     for i in 0..g.files.len() {
+        // namespace variety: at most one `as *` and one default namespace per file
+        let mut star_done = false;
+        let mut keep_done = false;
+        for s in g.files[i].stmts.iter_mut() {
+            if let Stmt::Load { kind: LoadKind::Use, ns, url, .. } = s {
+                match rng.below(6) {
+                    0 if !star_done => {
+                        *ns = "*".into();
+                        star_done = true;
+                    }
+                    1 if !keep_done && plain_last_component(url) => {
+                        *ns = String::new();
+                        keep_done = true;
+                    }
+                    _ => {}
+                }
+            }
+        }
         let uses: Vec<(String, usize)> = g.files[i]
             .stmts
             .iter()
@@ -61,7 +86,12 @@ fn add_probes(g: &mut GraphSpec, assign_via_forward: bool, rng: &mut Rng) {
                             *t
                         };
                         value += 1;
-                        extra.push(Stmt::Assign { ns: ns.clone(), target, value });
+                        if ns == "*" {
+                            // `$v: x` next to `@use ... as *` is a different question (local or module variable?)
+                            continue;
+                        }
+                        // (namespaced assignments inside blocks are not parsed by this rsass, so they stay at top level)
+                        extra.push(Stmt::Assign { ns: ns.clone(), target, value, wrap: Wrap::None });
                     }
                     _ => {
                         tag += 1;
@@ -129,7 +159,7 @@ impl M<'_> {
         for s in &self.g.files[f].stmts {
             match s {
                 Stmt::ModuleVars => self.v[f] = 0,
-                Stmt::Assign { ns, target, value } => {
+                Stmt::Assign { ns, target, value, .. } => {
                     self.seq += 1;
                     self.v[*target] = *value;
                     self.last_assign_seq[*target] = self.seq;
@@ -148,7 +178,8 @@ impl M<'_> {
                         && nt != usize::MAX
                         && self.last_assign_seq[*target] > self.loaded_seq[nt];
                     let toks = format!(
-                        "read_via_forward={} assigned_after_forwarder_loaded={} assign_via_forward={} read_ns_has_forward={} assign_ns_has_forward={}",
+                        "read_ns_star={} read_via_forward={} assigned_after_forwarder_loaded={} assign_via_forward={} read_ns_has_forward={} assign_ns_has_forward={}",
+                        u8::from(ns == "*"),
                         u8::from(via),
                         u8::from(after),
                         u8::from(self.assign_via_forward[*target]),
@@ -307,6 +338,9 @@ pub fn judge(case: &Case, stats: &mut Stats) -> (Judgement, Option<Outcome>) {
         let seen = &rules[&format!("u{f}-{tag}-t{t}")][0]["v"];
         if toks.contains("read_via_forward=1") {
             stats.inc("probe:read_via_forward");
+        }
+        if toks.contains("read_ns_star=1") {
+            stats.inc("probe:read_through_star");
         }
         if *v != 0 {
             stats.inc("probe:read_after_assignment");
